@@ -170,6 +170,29 @@ def check(ctx):
     ctx.check(a == want and b == want, "C06.R5", "aggregate-classification", None, f"aggregate fields are classified in different priority order: schema {a}, methods {b}", None, None, detail=str(want))
     # requiring keys are aliased on the method side like dependentRequired on the schema side (C11) - referenced, not re-checked
 
+    # ---------------- R6: folding of union alternatives
+    ctx.rule("C06.R6", "union folding: keywords that constrain every instance type (const / enum) are never kept when `null` (or another type) is merged into `type`", floor=2)
+    from ..pathcond import parents_of, path_condition
+    vu = model.func(f"{SBB}._visited_union")
+    parents = parents_of(vu.node)
+    n_sites = 0
+    for d in ast.walk(vu.node):
+        # a schema copied with `**other` and a widened "type"
+        if isinstance(d, ast.Dict) and any(k is None for k in d.keys) and any(isinstance(k, ast.Constant) and k.value == "type" for k in d.keys if k is not None):
+            n_sites += 1
+            cond = path_condition(vu.node, d, parents)
+            consts = {c.value for c in ast.walk(cond) if isinstance(c, ast.Constant) and isinstance(c.value, str)}
+            ctx.check({"const", "enum"} <= consts, "C06.R6", f"{vu.qualname}:nullable-merge", d,
+                      "`null` is added to the `type` list of a schema copied with all its other keywords, without excluding `const` / `enum`: these apply to every instance type, so the schema rejects null while deserialize(Optional[Literal[..]] / Optional[Enum]) accepts None",
+                      vu, d, detail="guarded by the absence of const / enum")
+        # `type=[...]` list built from several alternatives
+        if isinstance(d, ast.Call) and (dotted(d.func) or "") == "json_schema" and any(k.arg == "type" for k in d.keywords) and not d.args:
+            n_sites += 1
+            cond = norm(path_condition(vu.node, d, parents))
+            ctx.check('.keys() == {"type"}' in cond.replace("'", '"') and "all(" in cond, "C06.R6", f"{vu.qualname}:type-list", d,
+                      "alternatives are folded into one `type` list although some carry other keywords (which would be dropped: the schema accepts more than the union)", vu, d, detail="only when every alternative is {type: ...}")
+    ctx.check(n_sites >= 2, "C06.R6", f"{vu.qualname}:sites", vu.node.body[0], "the folding sites of _visited_union were not recognised", vu, vu.node, nontrivial=False)
+
 
 def mutants(mb):
     M = "apischema/deserialization/methods.py"
@@ -184,7 +207,9 @@ def mutants(mb):
     mb.add_text("tuple-method-lenient", M, "        if data_len != len(self.elt_methods):\n            if data_len < len(self.elt_methods):", "        if data_len < len(self.elt_methods):\n            if data_len < len(self.elt_methods):", "C06.R4", "TupleMethod")
     mb.add_text("unique-for-lists", J, "            uniqueItems=issubclass(cls, AbstractSet),", "            uniqueItems=True,", "C06.R3", "uniqueItems")
     mb.add_text("schema-required-inverted", J, "                field.required,\n                self.visit_field(tp, field, field.required),", "                not field.required,\n                self.visit_field(tp, field, field.required),", "C06.R5", "required")
-    mb.add_text("method-requiring-helper", D, "            for f, reqs in get_dependent_required(cls).items():\n                for req in reqs:\n                    requiring[req].add(alias_by_name[f])\n", "", "C06.R5", "dependentRequired")
+    mb.add_text("method-requiring-helper", D, "            for f, reqs in get_dependent_required(cls).items():\n                if f not in alias_by_name:  # field skipped for deserialization\n                    continue\n                for req in reqs:\n                    requiring[req].add(alias_by_name[f])\n", "", "C06.R5", "dependentRequired")
+    mb.add_text("nullable-merge-keeps-const", J, "            and not any(\"const\" in res or \"enum\" in res for res in results)\n", "", "C06.R6", "nullable-merge")
+    mb.add_text("type-list-drops-keywords", J, "        elif all(alt.keys() == {\"type\"} for alt in results):", "        elif all(\"type\" in alt for alt in results):", "C06.R6", "type-list")
     mb.add_text("aggregate-order", J, "            if field.flattened:\n                self._object_schema(cls, field)  # check the field is an object", "            if False:\n                self._object_schema(cls, field)  # check the field is an object", "C06.R5", "aggregate")
     mb.add_text("mapping-any-keys", J, "        if \"type\" not in key or key[\"type\"] != JsonType.STRING:\n            raise ValueError(\"Mapping types must have string-convertible keys\")\n", "", "C06.R4", "mapping")
     mb.add_text("schema-hook-missing", J, "    def any(self) -> JsonSchema:\n        return JsonSchema()\n", "", "C06.R1", "any")
